@@ -1,19 +1,118 @@
-(* C05 - PLACEHOLDER statement file (C05_unique / C05_reject / C05_lookup / C05_tasks are written by the
-   proof task); computed facts about the model only. *)
-From PJ Require Import Base.Prelude Graph.Model Graph.Invariant.
+(* C05 - "No sequence of accepted operations can make two different tasks with equal ids members of the same WBS
+   or of the same detached task tree; an operation that would do so is rejected with RuntimeError.  Consequently
+   wbs[id] returns the one member task with that id and raises RuntimeError when there is none, and WBS.tasks
+   lists every member exactly once in depth-first order: each task directly followed by its descendants,
+   siblings in list order."
+
+   Statement file; proofs in Graph/C05Proofs.v (on top of C01: Graph/StepProofs.v).
+   member s w t : t is a proper descendant of the hidden root of WBS w.  Root h x r : r is the parentless
+   object at the top of x's parent chain (the hidden root for WBS members, the top task for detached trees).
+   desc h c : the descendants of c in preorder. *)
+From PJ Require Import Base.Prelude Graph.Model Graph.Invariant Graph.AncLemmas Graph.AncLemmas2 Graph.LinksProofs
+  Graph.OracleProofs Graph.StepProofs Graph.C05Proofs.
 Local Open Scope nat_scope.
 
-(* a concrete history: one WBS, three tasks (ids 1, 2, 1), task 2 below task 1 in the WBS, a dependency *)
+(* ---- uniqueness: per tree (detached trees and WBSs alike), below any object, inside one WBS ---- *)
+Theorem C05_unique : forall s, WF s ->
+  forall a b r, a < length (hp s) -> b < length (hp s) -> Root (hp s) a r -> Root (hp s) b r ->
+    tid (get (hp s) a) = tid (get (hp s) b) -> a = b.
+Proof. exact C05Proofs.ids_unique_tree. Qed.
+
+Theorem C05_unique_below : forall s, WF s ->
+  forall x a b, Anc (hp s) a x -> Anc (hp s) b x -> tid (get (hp s) a) = tid (get (hp s) b) -> a = b.
+Proof. exact C05Proofs.ids_unique_below. Qed.
+
+Theorem C05_unique_wbs : forall s w l, WF s -> wbs_tasks s w = Ok l ->
+  forall a b, In a l -> In b l -> tid (get (hp s) a) = tid (get (hp s) b) -> a = b.
+Proof. exact C05Proofs.wbs_ids_unique. Qed.
+
+(* ---- rejection ---- *)
+(* after ANY public call, accepted or not, uniqueness holds: no call can produce a clash *)
+Theorem C05_reject : forall s o, WF s -> pub_args s o = true ->
+  let s' := fst (step s o) in
+  ~ exists a b r, a <> b /\ a < length (hp s') /\ b < length (hp s') /\
+                  Root (hp s') a r /\ Root (hp s') b r /\ tid (get (hp s') a) = tid (get (hp s') b).
+Proof. exact C05Proofs.step_no_clash. Qed.
+
+Theorem C05_step_ids : forall s o, WF s -> pub_args s o = true -> I_ids (fst (step s o)).
+Proof. exact C05Proofs.step_ids. Qed.
+
+(* the two setters through which every attachment goes: if the state the call WOULD write has a clash, the call
+   answers Err (RuntimeError - not another exception) and returns the very same state *)
+Theorem C05_reject_set_parent : forall s t p,
+  WF s -> pub s t -> (forall p', p = Some p' -> p' < length (hp s)) ->
+  ~ I_ids (set_parent_write s t p) -> set_parent s t p = (s, Err).
+Proof. exact C05Proofs.set_parent_clash_rejected. Qed.
+
+Theorem C05_reject_set_children : forall s t vs,
+  WF s -> t < length (hp s) -> pubs s vs ->
+  ~ I_ids (set_children_write s t (dedup (somes vs))) -> set_children s t vs = (s, Err).
+Proof. exact C05Proofs.set_children_clash_rejected. Qed.
+
+(* the guards never raise anything but RuntimeError on a state without hierarchy cycle *)
+Theorem C05_guards_no_crash : forall s, acyclic (hp s) ->
+  (forall t p, set_parent_guard s t p = OK \/ set_parent_guard s t p = Err) /\
+  (forall t value, set_children_guard s t value = OK \/ set_children_guard s t value = Err).
+Proof. exact C05Proofs.guards_no_crash. Qed.
+
+(* the id-intersection test itself (_has_id_intersection): it answers False exactly when the incoming objects
+   (below one of chs, not yet in the tree of p) have pairwise distinct ids, all distinct from the ids of that tree *)
+Theorem C05_id_clash_spec : forall h p chs, acyclic h ->
+  exists r b, rootof h p = Some r /\ Root h p r /\ id_clash h p chs = Ok b /\
+    (b = false <->
+       (forall x y, Incoming h r chs x -> Incoming h r chs y -> tid (get h x) = tid (get h y) -> x = y) /\
+       (forall x y, Incoming h r chs x -> InTree h r y -> tid (get h x) <> tid (get h y))).
+Proof. exact AncLemmas2.id_clash_spec. Qed.
+
+(* ---- lookup ---- *)
+Theorem C05_lookup : forall s w i, WF s ->
+  (forall t, wbs_getitem s w i = Ok t <-> member s w t /\ tid (get (hp s) t) = i) /\
+  (wbs_getitem s w i = Err <-> forall t, member s w t -> tid (get (hp s) t) <> i) /\
+  (forall k, wbs_getitem s w i <> Crash k).
+Proof. exact C05Proofs.getitem_spec. Qed.
+
+(* ---- enumeration: every member exactly once, in depth-first preorder ---- *)
+Theorem C05_tasks : forall s w, WF s ->
+  exists l, wbs_tasks s w = Ok l /\ NoDup l /\ (forall t, In t l <-> member s w t) /\
+            l = flat_map (fun c => c :: desc (hp s) c) (kids (get (hp s) (wroot s w))) /\
+            (forall c, desc (hp s) c = flat_map (fun c' => c' :: desc (hp s) c') (kids (get (hp s) c))) /\
+            (forall c x, In x (desc (hp s) c) <-> Anc (hp s) x c).
+Proof. exact C05Proofs.wbs_tasks_spec. Qed.
+
+(* ---- at every state reached by a public history ---- *)
+Theorem C05_reach : forall ops, pub_run init ops ->
+  let s := run init ops in
+  I_ids s /\
+  (forall x a b, Anc (hp s) a x -> Anc (hp s) b x -> tid (get (hp s) a) = tid (get (hp s) b) -> a = b) /\
+  (forall w, exists l, wbs_tasks s w = Ok l /\ NoDup l /\ (forall t, In t l <-> member s w t) /\
+                       l = flat_map (fun c => c :: desc (hp s) c) (kids (get (hp s) (wroot s w)))) /\
+  (forall w i, (forall t, wbs_getitem s w i = Ok t <-> member s w t /\ tid (get (hp s) t) = i) /\
+               (wbs_getitem s w i = Err <-> forall t, member s w t -> tid (get (hp s) t) <> i) /\
+               (forall k, wbs_getitem s w i <> Crash k)).
+Proof. exact C05Proofs.reach_C05. Qed.
+
+(* ---- the oracle on snapshots ---- *)
+Theorem C05_oracle : forall s, I_acy s -> (wf_ids_b s = true <-> I_ids s).
+Proof. exact OracleProofs.wf_ids_b_spec. Qed.
+
+(* ---- non-vacuity ---- *)
+(* one WBS, three tasks (ids 1, 2, 1), task 2 below task 1 in the WBS, a dependency; reached by a public history *)
 Definition demo_ops : list op :=
   [NewWbs; NewTask 1%Z None [] None; NewTask 2%Z None [] None; NewTask 1%Z None [] None;
    ChAppend 0 (Some 1); SetParent 2 (Some 1); SetLinks true 3 [Some 2]].
 Definition demo : state := run init demo_ops.
-(* object 3 has the id of object 1: it is rejected everywhere in the WBS of object 1, with RuntimeError *)
-Example C05_demo_duplicate_rejected :
-  map (fun o => outcome_code (snd (step demo o)))
-      [ChAppend 0 (Some 3); SetParent 3 (Some 2); OpFloordiv 2 [Some 3]; ChInsert 1 0%Z (Some 3)] = [1; 1; 1; 1]
-  /\ wf_ids_b demo = true.
+
+Example C05_demo_reachable : pub_run init demo_ops /\ wf_b demo = true.
 Proof. vm_compute. split; reflexivity. Qed.
+
+(* object 3 has the id of object 1: it is rejected everywhere in the WBS of object 1, with RuntimeError; the write
+   it would have done does break uniqueness (hypothesis of C05_reject_set_parent) *)
+Example C05_demo_duplicate_rejected :
+  map (fun o => (pub_args demo o, outcome_code (snd (step demo o))))
+      [ChAppend 0 (Some 3); SetParent 3 (Some 2); OpFloordiv 2 [Some 3]; ChInsert 1 0%Z (Some 3)]
+    = [(true, 1); (true, 1); (true, 1); (true, 1)]
+  /\ wf_ids_b demo = true /\ wf_ids_b (set_parent_write demo 3 (Some 2)) = false.
+Proof. vm_compute. repeat split; reflexivity. Qed.
 
 (* lookup and enumeration on the demo state *)
 Example C05_demo_lookup :
@@ -25,6 +124,20 @@ Example C05_illformed_rejected_by_wf_ids_b :
   wf_ids_b (mkS [mkT 1%Z None [1] [] [] None false None [] None; mkT 1%Z (Some 0) [] [] [] None false None [] None] []) = false.
 Proof. vm_compute. reflexivity. Qed.
 
+Print Assumptions C05_unique.
+Print Assumptions C05_unique_below.
+Print Assumptions C05_unique_wbs.
+Print Assumptions C05_reject.
+Print Assumptions C05_step_ids.
+Print Assumptions C05_reject_set_parent.
+Print Assumptions C05_reject_set_children.
+Print Assumptions C05_guards_no_crash.
+Print Assumptions C05_id_clash_spec.
+Print Assumptions C05_lookup.
+Print Assumptions C05_tasks.
+Print Assumptions C05_reach.
+Print Assumptions C05_oracle.
+Print Assumptions C05_demo_reachable.
 Print Assumptions C05_demo_duplicate_rejected.
 Print Assumptions C05_demo_lookup.
 Print Assumptions C05_illformed_rejected_by_wf_ids_b.
